@@ -504,6 +504,8 @@ def lexical_key(m):
     """classification of a round-trip failure whose smallest failing subterm is `m`, when the
     failure is the LEXER's (the string is not split into the tokens the printer wrote)"""
     if isinstance(m, p.Variable):
+        if m.name in ("True", "False"):
+            return "roundtrip-lex:Variable>constant-name"
         if m.name.startswith(("True", "False")):
             return "roundtrip-lex:Variable>True-prefix"
         return "roundtrip-lex:Variable>name"
@@ -529,6 +531,8 @@ class StringFragmentStream(Stream):
                 p.Lookup(-1, "u"), p.Lookup(True, "u"), p.Lookup(1e20, "u"), p.Lookup(1e-7, "u"),
                 p.Variable("Truex"), p.Variable("False_"), p.Variable("Trueish"),
                 p.Sum((p.Variable("Truex"), 1)), p.Lookup(p.Variable("x"), "Truex"),
+                p.CallWithKwargs(p.Variable("f"), (True, p.Variable("Falsex")), {"Truex": 1, "False_": False}),
+                p.LogicalAnd((p.Variable("Trueish"), True)), p.If(True, p.Variable("Truex"), p.Variable("Falsey")),
                 p.Call(1, (p.Variable("x"),)), p.Subscript(2, p.Variable("x")),
                 p.Product((2, p.Variable("e5"))), p.Power(2, p.Variable("e")), p.Power(p.Variable("x"), 1e-7),
                 p.Sum((1e22, p.Variable("j"))), p.Quotient(1.5e300, 5e-324),
@@ -601,10 +605,16 @@ class StringFragmentStream(Stream):
 
 
 def probe_lexical():
-    """the two lexical known findings, replayed on the real code"""
+    """the lexical findings, replayed on the real code: `1.u` (known) and the repaired `True` /
+    `False` rules without `\\b` (fixed: a VIOLATION if the defect returns)"""
     out = []
+    f, x = p.Variable("f"), p.Variable("x")
     for key, e in (("roundtrip-lex:Lookup>int", p.Lookup(1, "u")),
-                   ("roundtrip-lex:Variable>True-prefix", p.Variable("Truex"))):
+                   ("roundtrip-lex:Variable>True-prefix", p.Variable("Truex")),
+                   ("roundtrip-lex:Variable>True-prefix", p.Sum((p.Variable("False_"), 1))),
+                   ("roundtrip-lex:Lookup>True-prefix", p.Lookup(x, "Falsey")),
+                   ("roundtrip-lex:CallWithKwargs>True-prefix",
+                    p.CallWithKwargs(f, (True, p.Variable("Falsex")), {"Truex": 1}))):
         prob = roundtrip_problem(e)
         out.append((key, prob is not None, f"{e!r}: {prob}"))
     return out
